@@ -545,7 +545,7 @@ Lemma loader_accepts r out : migrate r = MOk out -> load out = LoadOk.
 Proof.
   intros Hm. apply migrate_ok in Hm as [-> _].
   unfold load, load_with. unfold mig_root at 1. cbn [andb].
-  rewrite check_root_mig, root_null_sub_mig. reflexivity.
+  rewrite check_root_mig. reflexivity.
 Qed.
 
 (* ------------------------------------------------------------------ leaves *)
